@@ -126,6 +126,15 @@ def bfFinish (s : SpecSt) (path : Path) (made : List Path) (r : CallRes) : CallR
                        createdDirs := made ++ s.createdDirs })
     | none => fail (.runtime .notCreated)
 
+/-- the state after the setup of `build_file path` failed with `e`: an injected fault fires only once,
+    and building below a target whose function is running is noted as a broken obligation -/
+def setupFailState (s : SpecSt) (path : Path) (e : Exc) : SpecSt :=
+  { s with failFiles := if e = .os .other then s.failFiles.erase path else s.failFiles,
+           obligation := s.obligation || s.inProg.any (fun c => properAncestor c path) }
+
+def consumeSubFault (s : SpecSt) (key : H) : SpecSt :=
+  { s with failSubs := s.failSubs.filter (fun x => !heq key x) }
+
 def statusOf : CallRes → String
   | .ok _ => "ok"
   | .error _ => "raised"
@@ -144,10 +153,7 @@ def run : Prog → Option Path → SpecSt → CallRes × SpecSt × List CallNode
   | .buildFile path _ fname args kwargs body k, t, s =>
     match bfSetup s path with
     | .error e =>
-      -- an injected fault fires once
-      let s := if e = .os .other then { s with failFiles := s.failFiles.erase path } else s
-      let s := { s with obligation := s.obligation || s.inProg.any (fun c => properAncestor c path) }
-      let (r, s', tr) := run (k (.error e)) t s
+      let (r, s', tr) := run (k (.error e)) t (setupFailState s path e)
       (r, s', .mk fname (some path) args kwargs ("setup:" ++ e.cls) [] :: tr)
     | .ok (s1, made) =>
       let s1 := { s1 with invLog := ⟨fname, some path, args, kwargs⟩ :: s1.invLog }
@@ -161,8 +167,7 @@ def run : Prog → Option Path → SpecSt → CallRes × SpecSt × List CallNode
       let (r, s', tr) := run (k (.error (.runtime .dupSub))) t s
       (r, s', .mk fname none args kwargs "setup:RuntimeError" [] :: tr)
     else if s.failSubs.any (heq key) then
-      let s := { s with failSubs := s.failSubs.filter (fun x => !heq key x) }
-      let (r, s', tr) := run (k (.error (.os .other))) t s
+      let (r, s', tr) := run (k (.error (.os .other))) t (consumeSubFault s key)
       (r, s', .mk fname none args kwargs "setup:OSError" [] :: tr)
     else
       let s1 := { s with claimedSubs := key :: s.claimedSubs,
